@@ -930,7 +930,8 @@ pub fn rel_sleep(rng: &mut Rng, flush_interval: u64) -> u64 {
 pub fn gen_c01(rng: &mut Rng, tier: Tier) -> Value {
     let np = 1 + rng.below(4);
     let max_entries = if tier == Tier::Thorough { 40 } else { 24 };
-    let flush_interval = INTERVALS[rng.usize_below(INTERVALS.len())];
+    // (5 %: a flush interval below one microsecond - legal, and zero when expressed in whole microseconds)
+    let flush_interval = if rng.chance(0.05) { *rng.pick(&[1u64, 400, 999]) } else { INTERVALS[rng.usize_below(INTERVALS.len())] };
     let mut producers = vec![];
     let mut counts = vec![];
     let mut total = 0;
